@@ -1057,6 +1057,8 @@ BINDING_SCENARIOS = [
     ('closure_nonlocal_declared_in_block', 'def g():\n    if True:\n        nonlocal v\n        return v\nr = g()'),
     ('closure_global_and_nonlocal_rebound_in_block', 'def g():\n    global G\n    nonlocal v\n    if d():\n        v = [7]\n    for k8 in n():\n        v = [8]\ng()\nr = v'),
     ('closure_global_written_nonlocal_rebound', 'def g():\n    global G\n    nonlocal v\n    if d():\n        G = 3\n        v = [G]\ng()\nr = v + [G]'),
+    ('closure_two_level_nonlocal_read', 'def g(p):\n    def gi():\n        nonlocal v\n        v = v + [p]\n        return v\n    return gi()\nr = g(3)'),
+    ('closure_two_level_read', 'def g(p):\n    def gi():\n        return v + [p]\n    return gi()\nr = g(3)'),
     ('closure_global_declared_in_block', 'def g():\n    if True:\n        global G\n        return [G]\nr = g() + v'),
 ]
 
